@@ -418,11 +418,19 @@ class BudgetTests:
         op = type(leaf.ops[0])
         if op not in (ast.Gt, ast.Lt, ast.GtE, ast.LtE, ast.Eq, ast.NotEq):
             return None
-        terms = linear_terms(leaf.left) + [(-s, t) for (s, t) in linear_terms(leaf.comparators[0])]
+        terms = [(s, t, nid) for (s, t) in linear_terms(leaf.left)] + [(-s, t, nid) for (s, t) in linear_terms(leaf.comparators[0])]
         vec = {"counter": 0, "size": 0, "budget": 0}
-        for (sg, t) in terms:
-            r = self.role(t, nid)
+        budget_steps = 0
+        while terms:
+            (sg, t, at) = terms.pop()
+            r = self.role(t, at)
             if r is None:
+                # a local holding a sum / difference of these quantities (`needed = self.counter + size`), computed where it is still current
+                v, dn = self._through_local(t, at)
+                budget_steps += 1
+                if dn is not None and isinstance(v, ast.BinOp) and isinstance(v.op, (ast.Add, ast.Sub)) and self._fresh(dn, at) and budget_steps < 12:
+                    terms += [(sg * s2, t2, dn) for (s2, t2) in linear_terms(v)]
+                    continue
                 return None
             if r != "zero":
                 vec[r] += sg
